@@ -74,6 +74,12 @@ typedef uint64_t UNT; typedef uint64_t UPT;
 #endif
 
 #if FLT
+/* IEEE NaN: exponent all ones, mantissa non-zero. Which NaN payload an arithmetic instruction propagates (first or second
+ * operand) is not fixed by C++ and differs between compilers, so ARITHMETIC results are compared modulo NaN payload;
+ * conversions, assignments and load/store are compared bit-exactly (NaN payloads included). */
+#define EXPMASK ((BITS == 32) ? 0x7F800000ULL : 0x7FF0000000000000ULL)
+#define MANMASK ((BITS == 32) ? 0x007FFFFFULL : 0x000FFFFFFFFFFFFFULL)
+static int is_nan(uint64_t b) { return (b & EXPMASK) == EXPMASK && (b & MANMASK) != 0; }
 #if BITS == 32
 typedef float flt_t;
 static flt_t fb(uint64_t b) { uint32_t x = (uint32_t)b; flt_t f; memcpy(&f, &x, 4); return f; }
@@ -94,13 +100,15 @@ void harness(void) {
   /* the expensive arithmetic kernels have their own queries (-DOP=...) */
   ASSUME(op != OP_MUL && op != OP_DIV && op != OP_MOD);
 #if FLT
-  ASSUME(!(op >= OP_MOD && op <= OP_SHR)); /* % & | ^ << >> do not exist for floating types */
+  /* % & | ^ << >> do not exist for floating types; floating + - ++ -- have their own queries as well */
+  ASSUME(op <= OP_RAW || op == OP_COPY);
 #endif
 #endif
   uint64_t stored = 0, returned = 0; /* reference: native value of x afterwards, and what the native operator returns */
-  int raw_op = 0;
+  int raw_op = 0, arith = 0;
 #if FLT
   flt_t x = fb(v), y = fb(d), r;
+  arith = (op >= OP_ADD && op <= OP_DIV) || (op >= OP_PREINC && op <= OP_POSTDEC);
   switch (op) {
     case OP_CTOR: stored = returned = v; break;
     case OP_ASSIGN: case OP_STORE_LOAD: case OP_COPY: stored = returned = d; break;
@@ -161,18 +169,24 @@ void harness(void) {
   for (int i = 0; i < 9; i++) raw[i] = 0xC3;
   uint64_t ret = 0;
   int64_t rc = CAT(w_, W)(op, v, d, raw, &ret);
-  OBS(op); OBS(rc); OBS(ret);
+  OBS(op); OBS(rc);
   ASSERT(rc == 0, "operation exists for this type");
+  uint64_t got_stored = 0; /* decode the object bytes in the named order */
+  for (int k = 0; k < 8; k++) if (k < NB) got_stored |= (uint64_t)raw[k] << (8 * (BIG ? (NB - 1 - k) : k));
   if (raw_op) {
     /* store_raw(d) puts the host-order bytes of d into the object verbatim; load_raw() gives them back */
+    OBS(ret);
     for (int k = 0; k < 8; k++) if (k < NB) ASSERT(raw[k] == (uint8_t)(d >> (8 * k)), "store_raw stores the representation verbatim");
     ASSERT(ret == d, "load_raw returns the stored representation");
   } else {
-    for (int k = 0; k < 8; k++) if (k < NB) {
-      OBS(raw[k]);
-      ASSERT(raw[k] == (uint8_t)(stored >> (8 * (BIG ? (NB - 1 - k) : k))), "object bytes are the named-byte-order encoding of the native result");
-    }
-    ASSERT(ret == returned, "the operator returns what the same operator returns on the native type");
+    int nan_s = 0, nan_r = 0;
+#if FLT
+    nan_s = arith && is_nan(stored) && is_nan(got_stored); /* both NaN after arithmetic: payload not compared */
+    nan_r = arith && is_nan(returned) && is_nan(ret);
+#endif
+    OBS(nan_r ? returned : ret); OBS(nan_s ? stored : got_stored);
+    ASSERT(got_stored == stored || nan_s, "object bytes are the named-byte-order encoding of the native result");
+    ASSERT(ret == returned || nan_r, "the operator returns what the same operator returns on the native type");
   }
   ASSERT(raw[NB] == 0xC3, "the object occupies exactly sizeof(T) bytes");
 }
